@@ -35,6 +35,11 @@ SNIPPETS = {
 }
 
 
+# eligible files without a single token: they have no findings, and nothing of them may reach another file
+SPECIAL_CONTENTS = {'blank': '\n\n  \n\t\n\n\n', 'empty': '', 'comment': '// nothing here\n/* pragma solidity ^0.8.0; a / b * c */\n\n',
+                    'one space': ' '}
+
+
 def file_text(names_with_findings, salt=0):
     pragma = 'pragma solidity ^0.8.16;' if 'floating_pragma' in names_with_findings else 'pragma solidity 0.8.16;'
     body = '\n'.join('    ' + SNIPPETS[n] for n in names_with_findings if SNIPPETS.get(n))
@@ -192,7 +197,9 @@ def materialise(tree_entries, root, findings_of, counter=None):
             materialise(ent[2], p, findings_of, counter)
         else:
             counter[0] += 1
-            if len(ent) > 3 and ent[3] == 'binary':
+            if len(ent) > 3 and ent[3] in SPECIAL_CONTENTS:
+                open(p, 'w').write(SPECIAL_CONTENTS[ent[3]])
+            elif len(ent) > 3 and ent[3] == 'binary':
                 open(p, 'wb').write(b'\xff\xfe\x00 not utf-8 \x80\x81')
             else:
                 open(p, 'w').write(file_text(findings_of(ent[2]), 0 if name == 'Same.sol' else counter[0]))
